@@ -80,25 +80,29 @@ func hostOf(class string) (string, bool) {
 }
 
 type rangeScn struct {
-	t       *Trace
-	dir     string
-	db      string
-	g       rangeGeom
-	lease   int // seconds
-	h       handler.Handler4
-	macs    map[int]net.HardwareAddr
-	macOf   map[string]int
-	r       *rand.Rand
-	probe   bool
-	nsetup  *int
-	seenMac []int
-	base    uint32
-	id      int
-	cids    map[string][]byte
-	tscale  int     // > 1: times and durations are recorded in units of tscale seconds (values beyond 2^31 do not fit the checker)
-	dbq     string  // query part of the database argument (fault scenarios: a short busy timeout)
-	foreign *sql.DB // the environment's own connection to the lease database
-	fconn   *sql.Conn
+	t          *Trace
+	dir        string
+	db         string
+	g          rangeGeom
+	lease      int // seconds
+	h          handler.Handler4
+	macs       map[int]net.HardwareAddr
+	macOf      map[string]int
+	r          *rand.Rand
+	probe      bool
+	nsetup     *int
+	seenMac    []int
+	base       uint32
+	id         int
+	cids       map[string][]byte
+	tscale     int     // > 1: times and durations are recorded in units of tscale seconds (values beyond 2^31 do not fit the checker)
+	dbq        string  // query part of the database argument (fault scenarios: a short busy timeout)
+	foreign    *sql.DB // the environment's own connection to the lease database
+	fconn      *sql.Conn
+	dead       bool // a handler call did not return
+	forceOpt   int  // >= 0: the request variant to send (replay); -1: chosen by the scenario's generator
+	lastOpt    int
+	forceLease int // > 0: the lease time to configure at the next restart (replay)
 }
 
 func (s *rangeScn) mac(id int) net.HardwareAddr {
@@ -132,6 +136,12 @@ func (s *rangeScn) mac(id int) net.HardwareAddr {
 
 func (s *rangeScn) setup(restart bool) bool {
 	*s.nsetup++
+	if restart && s.forceLease > 0 {
+		s.lease, s.forceLease = s.forceLease, 0
+	} else if restart && s.lease >= 30 && s.tscale <= 1 && s.r.Intn(3) == 0 {
+		// the operator changed the lease time before restarting on the same database: from now on THAT is the configured lease time
+		s.lease = []int{30, 45, 60, 600, 3600}[s.r.Intn(5)]
+	}
 	var (
 		h   handler.Handler4
 		err error
@@ -150,12 +160,21 @@ func (s *rangeScn) setup(restart bool) bool {
 		res = "err"
 		msg = fmt.Sprint(err)
 	}
-	s.t.Emit(Ev{"ev": "setup", "restart": restart, "res": res, "msg": msg})
+	el := s.lease
+	if s.tscale > 1 {
+		el = s.lease / s.tscale
+	}
+	s.t.Emit(Ev{"ev": "setup", "restart": restart, "res": res, "msg": msg, "lease": el})
 	s.h = h
 	return res == "ok"
 }
 
 func buildReq4(mt dhcpv4.MessageType, mac net.HardwareAddr, hostClass string, r *rand.Rand) (*dhcpv4.DHCPv4, *dhcpv4.DHCPv4, error) {
+	return buildReq4v(mt, mac, hostClass, r, r.Intn(8))
+}
+
+// buildReq4v: variant selects what the client adds about the lease it would like (recorded, so that a replay sends the same)
+func buildReq4v(mt dhcpv4.MessageType, mac net.HardwareAddr, hostClass string, r *rand.Rand, variant int) (*dhcpv4.DHCPv4, *dhcpv4.DHCPv4, error) {
 	req, err := dhcpv4.New()
 	if err != nil {
 		return nil, nil, err
@@ -164,6 +183,19 @@ func buildReq4(mt dhcpv4.MessageType, mac net.HardwareAddr, hostClass string, r 
 	req.UpdateOption(dhcpv4.OptMessageType(mt))
 	if hn, ok := hostOf(hostClass); ok {
 		req.UpdateOption(dhcpv4.OptHostName(hn))
+	}
+	// what a client may add about the lease it would like: a lease time (option 51: short, zero, infinite), a maximum message size
+	switch variant {
+	case 0:
+		req.UpdateOption(dhcpv4.OptIPAddressLeaseTime(20 * time.Second))
+	case 1:
+		req.UpdateOption(dhcpv4.OptIPAddressLeaseTime(1 * time.Second))
+	case 2:
+		req.UpdateOption(dhcpv4.OptGeneric(dhcpv4.OptionIPAddressLeaseTime, []byte{0xff, 0xff, 0xff, 0xff}))
+	case 3:
+		req.UpdateOption(dhcpv4.OptGeneric(dhcpv4.OptionIPAddressLeaseTime, []byte{0, 0, 0, 0}))
+	case 4:
+		req.UpdateOption(dhcpv4.OptMaxMessageSize(576))
 	}
 	// as the wire would deliver it
 	req, err = dhcpv4.FromBytes(req.ToBytes())
@@ -178,6 +210,11 @@ func buildReq4(mt dhcpv4.MessageType, mac net.HardwareAddr, hostClass string, r 
 		resp.UpdateOption(dhcpv4.OptMessageType(dhcpv4.MessageTypeOffer))
 	} else {
 		resp.UpdateOption(dhcpv4.OptMessageType(dhcpv4.MessageTypeAck))
+	}
+	if variant == 5 {
+		// a plugin earlier in the chain (lease_time) already put a lease time into the response: a plugin that hands out leases
+		// of its own promises ITS lease time
+		resp.UpdateOption(dhcpv4.OptIPAddressLeaseTime(2 * time.Hour))
 	}
 	return req, resp, nil
 }
@@ -229,7 +266,12 @@ func (s *rangeScn) clientID(mac net.HardwareAddr) []byte {
 
 // callHandler runs one request through handler h and abstracts the result.
 func (s *rangeScn) callHandler(h handler.Handler4, mt dhcpv4.MessageType, mac net.HardwareAddr, hostClass string) Ev {
-	req, resp, err := buildReq4(mt, mac, hostClass, s.r)
+	variant := s.forceOpt
+	if variant < 0 {
+		variant = s.r.Intn(8)
+	}
+	s.lastOpt = variant
+	req, resp, err := buildReq4v(mt, mac, hostClass, s.r, variant)
 	if err != nil {
 		return Ev{"res": "builderr", "idx": -1, "lease": -1, "stop": false, "msg": err.Error()}
 	}
@@ -246,10 +288,20 @@ func (s *rangeScn) callHandler(h handler.Handler4, mt dhcpv4.MessageType, mac ne
 		stop bool
 		pan  interface{}
 	)
-	func() {
+	done := make(chan struct{})
+	go func() {
+		defer close(done)
 		defer func() { pan = recover() }()
 		out, stop = h(req, resp)
 	}()
+	select {
+	case <-done:
+	case <-time.After(20 * time.Second):
+		// the handler does not come back (a plugin that waits for something nobody will ever give it): every later request
+		// of this instance would wait as well, so the scenario ends here
+		s.dead = true
+		return Ev{"res": "hang", "idx": -1, "lease": -1, "stop": false, "msg": "handler did not return within 20 s"}
+	}
 	if pan != nil {
 		return Ev{"res": "panic", "idx": -1, "lease": -1, "stop": false, "msg": fmt.Sprint(pan)}
 	}
@@ -291,6 +343,7 @@ func (s *rangeScn) req(mt dhcpv4.MessageType, id int, hostClass string) {
 	}
 	e["ev"], e["type"], e["mac"], e["maclen"], e["host"], e["t0"], e["t1"] = "req", mt.String(), id, len(mac), hostClass, t0, t1
 	e["machex"] = mac.String()
+	e["ropt"] = s.lastOpt
 	s.t.Emit(e)
 }
 
@@ -410,7 +463,7 @@ func (s *rangeScn) restartProbe(at string) {
 
 func newRangeScn(t *Trace, dir string, id int, g rangeGeom, lease int, r *rand.Rand, probe bool, nsetup *int) *rangeScn {
 	s := &rangeScn{t: t, dir: dir, g: g, lease: lease, r: r, probe: probe, nsetup: nsetup, id: id,
-		macs: map[int]net.HardwareAddr{}, macOf: map[string]int{}}
+		macs: map[int]net.HardwareAddr{}, macOf: map[string]int{}, forceOpt: -1}
 	s.db = filepath.Join(dir, fmt.Sprintf("scn-%d.db", id))
 	os.Remove(s.db)
 	s.base = binary.BigEndian.Uint32(net.ParseIP(g.start).To4())
@@ -436,6 +489,9 @@ func (s *rangeScn) run(letters []string) {
 		s.restartProbe("setup")
 	}
 	for _, l := range letters {
+		if s.dead {
+			break
+		}
 		switch {
 		case l == "restart":
 			if !s.setup(true) {
@@ -918,6 +974,9 @@ func runRangeReplay(t *Trace, dir, path string, nsetup *int) error {
 			if s == nil || e["restart"] != true {
 				continue
 			}
+			if _, ok := e["lease"]; ok && s.tscale <= 1 {
+				s.forceLease = toInt(e["lease"])
+			}
 			if !s.setup(true) {
 				return nil
 			}
@@ -951,6 +1010,10 @@ func runRangeReplay(t *Trace, dir, path string, nsetup *int) error {
 			mt := dhcpv4.MessageTypeDiscover
 			if toStr(e["type"]) == "REQUEST" {
 				mt = dhcpv4.MessageTypeRequest
+			}
+			s.forceOpt = -1
+			if _, ok := e["ropt"]; ok {
+				s.forceOpt = toInt(e["ropt"])
 			}
 			s.req(mt, id, toStr(e["host"]))
 			if s.probe {
